@@ -140,7 +140,7 @@ func (idx *Index) IsRegisteredAsDirectory(dirName string) bool {
 		entry := idx.Entries[middle]
 		if dirRegexp.MatchString(string(entry.Path)) {
 			return true
-		} else if string(entry.Path) < dirName {
+		} else if string(entry.Path) < dirName+"/" {
 			left = middle + 1
 		} else {
 			right = middle
